@@ -1335,7 +1335,32 @@ func ruleC01Rewrap(p *Prog, a *Anchors, r *Report) {
 					continue
 				}
 				var ev ssa.Value
+				evCell := ""
 				switch {
+				case !c.Common().IsInvoke() && isMakeClosure(c.Common().Value):
+					// a closure called where it is made (`text := func() string { defer …recover…; return err.Error() }()`)
+					mc := c.Common().Value.(*ssa.MakeClosure)
+					cf := mc.Fn.(*ssa.Function)
+					for _, cb := range cf.Blocks {
+						for _, ci := range cb.Instrs {
+							ic, isC := ci.(*ssa.Call)
+							if !isC || !ic.Common().IsInvoke() || ic.Common().Method.Name() != "Error" || !types.Identical(ic.Common().Value.Type(), errT) {
+								continue
+							}
+							if u, isU := ic.Common().Value.(*ssa.UnOp); isU {
+								if fv, isFV := u.X.(*ssa.FreeVar); isFV {
+									for i, x := range cf.FreeVars {
+										if x == fv && i < len(mc.Bindings) {
+											evCell = cellOf2(mc.Bindings[i])
+										}
+									}
+								}
+							}
+						}
+					}
+					if evCell == "" {
+						continue
+					}
 				case c.Common().IsInvoke() && c.Common().Method.Name() == "Error" && types.Identical(c.Common().Value.Type(), errT):
 					ev = c.Common().Value
 				case c.Common().StaticCallee() != nil && c01ErrorTextHelper(p, c.Common().StaticCallee()) >= 0:
@@ -1372,7 +1397,7 @@ func ruleC01Rewrap(p *Prog, a *Anchors, r *Report) {
 							v = ex.Tuple
 						}
 						ta, isTA := v.(*ssa.TypeAssert)
-						if !isTA || ta.X != ev {
+						if !isTA || !(ta.X == ev || (evCell != "" && cellOf(ta.X) == evCell) || (ev != nil && cellOf(ev) != "" && cellOf(ev) == cellOf(ta.X))) {
 							return false
 						}
 						pt, isP := ta.AssertedType.(*types.Pointer)
@@ -2053,3 +2078,5 @@ func c01ErrorTextHelper(p *Prog, g *ssa.Function) int {
 	}
 	return -1
 }
+
+func isMakeClosure(v ssa.Value) bool { _, ok := v.(*ssa.MakeClosure); return ok }
